@@ -153,6 +153,13 @@ def run_server(kconfig, sdkconfig, sdkconfig_rename, default_version=MAX_PROTOCO
             sys.stdout.write("\n")
             sys.stdout.flush()
             continue
+        shape_error = validate_request(req)
+        if shape_error:
+            log.err(escape(shape_error))
+            json.dump({"version": default_version, "error": [shape_error]}, sys.stdout)
+            sys.stdout.write("\n")
+            sys.stdout.flush()
+            continue
         before = kconfgen.get_json_values(config)
         before_ranges = get_ranges(config)
         before_visible = get_visible(config)
@@ -224,6 +231,22 @@ def run_server(kconfig, sdkconfig, sdkconfig_rename, default_version=MAX_PROTOCO
         json.dump(response, sys.stdout)
         sys.stdout.write("\n")
         sys.stdout.flush()
+
+
+def validate_request(req):
+    """Returns an error message if the request is not shaped as the protocol prescribes, else None."""
+    if not isinstance(req, dict):
+        return "Request must be a JSON object"
+    if "version" in req and type(req["version"]) is not int:
+        return "'version' must be an integer"
+    if "set" in req and not isinstance(req["set"], dict):
+        return "'set' must be an object mapping config symbol names to values"
+    if "reset" in req and not (isinstance(req["reset"], list) and all(isinstance(n, str) for n in req["reset"])):
+        return "'reset' must be an array of config symbol names / menu IDs"
+    for key in ("load", "save"):
+        if key in req and req[key] is not None and not isinstance(req[key], str):
+            return f"'{key}' must be a file name or null"
+    return None
 
 
 def get_sym_default_value_dict(config: kconfiglib.Kconfig) -> Dict[str, bool]:
